@@ -249,6 +249,14 @@ func UnpackPtr(v reflect.Value) reflect.Value {
 	return v
 }
 
+// convertTo gives v the Go type typ, with the conversions SetValue applies to struct fields (wire int to any Go
+// integer kind, double to float32, pointer to value and back)
+func convertTo(typ reflect.Type, v reflect.Value) reflect.Value {
+	dst := reflect.New(typ).Elem()
+	SetValue(dst, v)
+	return dst
+}
+
 //PackPtr pack a Ptr value
 func PackPtr(v reflect.Value) reflect.Value {
 	vv := reflect.New(v.Type())
@@ -353,7 +361,8 @@ func EnsureFloat64(i interface{}) float64 {
 	if i32, ok := i.(float32); ok {
 		return float64(i32)
 	}
-	panic(fmt.Errorf("can't convert to float64: %v, type:%v", i, reflect.TypeOf(i)))
+	// the value itself is not printed: decoded data may contain itself, which fmt cannot format
+	panic(fmt.Errorf("can't convert value of type %v to float64", reflect.TypeOf(i)))
 }
 
 //EnsureInt64 convert i to int64
@@ -364,7 +373,8 @@ func EnsureInt64(i interface{}) int64 {
 	if i32, ok := i.(int32); ok {
 		return int64(i32)
 	}
-	panic(fmt.Errorf("can't convert to int64: %v, type:%v", i, reflect.TypeOf(i)))
+	// the value itself is not printed: decoded data may contain itself, which fmt cannot format
+	panic(fmt.Errorf("can't convert value of type %v to int64", reflect.TypeOf(i)))
 }
 
 //EnsureUint64 convert i to uint64
@@ -381,7 +391,8 @@ func EnsureUint64(i interface{}) uint64 {
 	if i32, ok := i.(uint32); ok {
 		return uint64(i32)
 	}
-	panic(fmt.Errorf("can't convert to uint64: %v, type:%v", i, reflect.TypeOf(i)))
+	// the value itself is not printed: decoded data may contain itself, which fmt cannot format
+	panic(fmt.Errorf("can't convert value of type %v to uint64", reflect.TypeOf(i)))
 }
 
 //SetSlice set value into slice object
